@@ -238,7 +238,7 @@ def subs(tier):
     return [
         Sub("fixed-gates", run_gate, cases=lambda: itertools.chain(fixed_gate_cases(), fixed_angle_cases()),
             exhaustive=True),
-        Sub("rotation-angles", run_gate, strategy=ang, examples=60 if q else 2000),
+        Sub("rotation-angles", run_gate, strategy=ang, examples=60 if q else 20000),
         Sub("swap-all-mode-pairs", run_swap, cases=lambda: swap_cases(6 if q else 8), exhaustive=True),
         Sub("invalid-options", run_invalid, cases=invalid_cases, exhaustive=True),
     ]
